@@ -87,6 +87,8 @@ def units(world, which):
         f = world.make_harness(name, HARNESS[name], module="aiomysensors.model.message")
         for vidx, tag in enumerate(["14", "15", "20", "21", "22"]):
             ct = {"load_line": load_contract, "dump_message": dump_contract, "roundtrip": roundtrip_contract, "reencode": reencode_contract}[name](vidx)
-            ct.raises_only_id = "C02+C03/raises-only"
+            # encoding a well-formed message, decoding its line, re-encoding an accepted line: an exception there is C01's failure
+            # ("every message the codec can encode decodes back to an equal message")
+            ct.raises_only_id = "C02+C03/raises-only" if name == "load_line" else "C01+C02+C03/raises-only"
             out.append((f"MessageSchema.{name}[{tag}]", f.qualname, ct, None, ()))
     return out
